@@ -132,7 +132,7 @@ class C15:
     prop = PROP
     level = "exploration"
     line_modules = seams.TARGET_MODULES
-    policy_weights = (0.5, 0.3, 0.2)
+    policy_weights = (0.45, 0.25, 0.2, 0.1)  # random walk, PCT, single pre-emption, race-directed (DESIGN 3.3)
 
     def opcode_modules(self, case):
         return ("rich.console",) if case["cfg"].get("opcode") else ()
